@@ -20,7 +20,7 @@ Import ListNotations.
 Open Scope nat_scope.
 
 Inductive kind := KF | KG | KFG.                 (* return_functions / return_gradients / both *)
-Inductive code := TooFew | MaxFunctions | UserAbort | OptFinished | EvalFinished.
+Inductive code := TooFew | MaxFunctions | UserAbort | OptFinished | EvalFinished | NestedFailed.
 Inductive evt := StartEval | FinEval | StartOpt | FinOpt | StartEvalStep | FinEvalStep.
 Inductive outcome := Exit (c : code) | Raise.    (* Raise = the evaluator's own exception reaches the caller *)
 
@@ -234,11 +234,66 @@ Definition run_evaluator_step (c : cfg) (r : req) : outcome * list res * list ev
       end
   end.
 
+(* ---- the optimizer step with a nested optimization ---------------------------------
+   EnsembleOptimizer._optimizer_callback runs the nested optimizer (DefaultOptimizerStep.
+   _run_nested_plan: the nested plan's function runs the inner optimizer step and returns the result
+   held by the inner plan's tracker) after the budget check and before the evaluation of every outer
+   request: nested plan aborted -> USER_ABORT, no result -> NESTED_OPTIMIZER_FAILED.  The tracker
+   keeps its result from one nested run to the next.  Outer requests are paired with the script of
+   their nested run. *)
+(* a result the tracker can hold: function values that are present and not NaN *)
+Definition trackable (r : res) : bool :=
+  match r_kind r with RF => r_has r && negb (r_allf r) | RG => false end.
+Definition has_result (d : list res) : bool := existsb trackable d.
+
+(* trace: events of the outer step, and whole nested runs (outcome, evaluation events) *)
+Inductive tr := TE (e : evt) | TInner (o : outcome) (evs : list evt).
+
+Fixpoint run_nested (c ic : cfg) (script : list (req * list req)) (completed : nat) (ca : cache) (has : bool)
+  : outcome * list res * list tr * (nat * bool) :=
+  match script with
+  | [] => (Exit OptFinished, [], [], (completed, has))
+  | (r, iscript) :: t =>
+      if over_budget c completed then (Exit MaxFunctions, [], [], (completed, has)) else
+      let '(io, id, ie, _) := run ic iscript 0 None in
+      let has' := has || has_result id in
+      match io with
+      | Raise => (Raise, id, [TInner io ie], (completed, has'))
+      | Exit UserAbort => (Exit UserAbort, id, [TInner io ie], (completed, has'))
+      | Exit _ =>
+          if negb has' then (Exit NestedFailed, id, [TInner io ie], (completed, has')) else
+          match eval_req c r ca with
+          | VRaise => (Raise, id, [TInner io ie; TE StartEval], (completed, has'))
+          | VAbort => (Exit UserAbort, id, [TInner io ie; TE StartEval], (completed, has'))
+          | VInside _ rs =>
+              (Exit TooFew, id ++ rs, [TInner io ie; TE StartEval; TE FinEval], (completed, has'))
+          | VResults rs n ca' =>
+              if few_opt c rs then
+                (Exit TooFew, id ++ rs, [TInner io ie; TE StartEval; TE FinEval], (completed, has'))
+              else
+                let '(o, d, e, k) := run_nested c ic t (completed + n) ca' has' in
+                (o, id ++ rs ++ d, TInner io ie :: TE StartEval :: TE FinEval :: e, k)
+          end
+      end
+  end.
+
+Fixpoint flat_tr (l : list tr) : list evt :=
+  match l with
+  | [] => []
+  | TE e :: t => e :: flat_tr t
+  | TInner o evs :: t => (StartOpt :: evs ++ closing o FinOpt) ++ flat_tr t
+  end.
+
+Definition run_nested_step (c ic : cfg) (script : list (req * list req)) : outcome * list res * list evt :=
+  let '(o, d, t, _) := run_nested c ic script 0 None false in
+  (o, d, StartOpt :: flat_tr t ++ closing o FinOpt).
+
 (* ---- numeric values of the enums (compared with Gen.Generated in the checker) ---- *)
 Definition code_name (c : code) : string :=
   match c with
   | TooFew => "TOO_FEW_REALIZATIONS" | MaxFunctions => "MAX_FUNCTIONS_REACHED" | UserAbort => "USER_ABORT"
   | OptFinished => "OPTIMIZER_STEP_FINISHED" | EvalFinished => "EVALUATION_STEP_FINISHED"
+  | NestedFailed => "NESTED_OPTIMIZER_FAILED"
   end%string.
 Definition evt_name (e : evt) : string :=
   match e with
